@@ -635,8 +635,9 @@ fn bodies(seed: u64, target: &str, vi: u64, len: usize, tier: Tier) -> Vec<Body>
     let cap_b = *r.pick(&BUF_CAPS);
     let sinks = [Sink::Sim, Sink::Buf(cap_a), Sink::NoStd];
     // (1) every failure position k in [0, len] for each sink composition, + flush failure
+    let ks = positions(len, true, &mut r);
     for (si, sink) in sinks.iter().enumerate() {
-        for k in 0..=len {
+        for &k in &ks {
             let kind = Kind::ALL[(k + si) % Kind::ALL.len()];
             out.push(Body::Sim { api: Api::Serialize, sink: *sink, script: Script::fail_at(k, kind) });
         }
@@ -644,14 +645,14 @@ fn bodies(seed: u64, target: &str, vi: u64, len: usize, tier: Tier) -> Vec<Body>
     }
     // premature Ok(0) at every position (thorough) / at sampled positions (quick), std sink only
     let zero_positions: Vec<usize> = match tier {
-        Tier::Thorough => (0..=len).collect(),
+        Tier::Thorough => ks.clone(),
         Tier::Quick => (0..12).map(|_| r.below(len as u64 + 1) as usize).collect(),
     };
     for k in zero_positions {
         out.push(Body::Sim { api: Api::Serialize, sink: if r.chance(1, 3) { Sink::Buf(cap_b) } else { Sink::Sim }, script: Script::zero_at(k) });
     }
     // serialize_with_schema: every position under the plain sink for a quarter of the units, sampled otherwise
-    let schema_positions: Vec<usize> = if vi % 4 == 1 || matches!(tier, Tier::Thorough) && vi % 2 == 0 { (0..=len).collect() } else { (0..8).map(|_| r.below(len as u64 + 1) as usize).collect() };
+    let schema_positions: Vec<usize> = if vi % 4 == 1 || matches!(tier, Tier::Thorough) && vi % 2 == 0 { ks.clone() } else { (0..8).map(|_| r.below(len as u64 + 1) as usize).collect() };
     for k in schema_positions {
         out.push(Body::Sim { api: Api::SerializeWithSchema, sink: Sink::Sim, script: Script::fail_at(k, Kind::Other) });
     }
